@@ -99,15 +99,9 @@ func (e *Explorer) explore(prefix []int, depth int) {
 	for i, c := range r.Trace {
 		if i >= len(prefix) {
 			for alt := 1; alt < c.N; alt++ {
-				cost := used
-				if c.Cost {
-					cost += alt
-				}
+				cost := used + CostOf(c.Kind, alt)
 				if cost > e.Opt.Bound {
-					if c.Cost {
-						break
-					}
-					continue
+					break
 				}
 				if depth == 0 {
 					k := e.level1
@@ -127,9 +121,7 @@ func (e *Explorer) explore(prefix []int, depth int) {
 				}
 			}
 		}
-		if c.Cost {
-			used += c.Pick
-		}
+		used += CostOf(c.Kind, c.Pick)
 	}
 }
 
